@@ -228,6 +228,35 @@ def run_e2e(case):
                 "calls": [[k, s, hx(m.encode("utf8", "replace")), hx(out)] for k, s, m, out in rec.calls]}
 
 
+_ERR_CTX = None
+
+
+def run_err(case):
+    """the real Http1Server.send(ResponseProtocolError(code, message)) with the client connection writable or not and a
+    response already started or not: what is written to the client, and whether the connection is closed"""
+    global _ERR_CTX
+    from common.world import make_context
+    from mitmproxy.proxy import commands
+    from mitmproxy.connection import ConnectionState
+    from mitmproxy.test import taddons
+    from mitmproxy.addons import proxyserver
+    from mitmproxy.test.tflow import tresp
+    if _ERR_CTX is None:
+        cm = taddons.context(proxyserver.Proxyserver()); _ERR_CTX = (cm, cm.__enter__())
+    ctx = make_context(opts=_ERR_CTX[1].options)
+    lay = _http1.Http1Server(ctx)
+    if case["started"]: lay.response = tresp()
+    if not case["canwrite"]: ctx.client.state = ConnectionState.CAN_READ
+    msg = msg_of(case)
+    cmds = list(lay.send(_events.ResponseProtocolError(1, msg, _events.ErrorCode(case["code"]))))
+    sent = b"".join(c.data for c in cmds if isinstance(c, commands.SendData))
+    other = [type(c).__name__ for c in cmds if not isinstance(c, (commands.SendData, commands.CloseConnection))]
+    return {"sent_hex": hx(sent), "n_send": sum(isinstance(c, commands.SendData) for c in cmds),
+            "closed": any(isinstance(c, commands.CloseConnection) for c in cmds),
+            "send_after_close": any(isinstance(c, commands.SendData) for c in cmds[[isinstance(c, commands.CloseConnection) for c in cmds].index(True):]) if any(isinstance(c, commands.CloseConnection) for c in cmds) else False,
+            "other": other, "status": _events.ErrorCode(case["code"]).http_status_code()}
+
+
 class Check(PropertyCheck):
     prop = "C12"
     design_ref = "§5 C12"
@@ -237,8 +266,10 @@ class Check(PropertyCheck):
                   "of the five entities (and unescaping gives the message back); the page's markup characters are exactly "
                   "those of the fixed template whatever the message; every & of the page starts an entity; an independent "
                   "reference HTTP/1 response reader accepts make_error_response with status, Content-Type text/html, "
-                  "Connection close and content-length = body length = the page. Model tied to the code byte-for-byte on "
-                  "generated (status, message) pairs and on every format_error/make_error_response call made while real "
+                  "Connection close and content-length = body length = the page; the HTTP/1 send site Http1Server.send(ResponseProtocolError) is "
+                  "modelled (h1ErrorReply: writable?, response started?, ErrorCode->status) and whatever it writes is proved to be exactly one such "
+                  "response for a status 100..999 followed by close, never into a started response (h1_error_reply_wellformed). Model tied to the code byte-for-byte on "
+                  "generated (status, message) pairs, on the real Http1Server.send for every ErrorCode x started x writable, and on every format_error/make_error_response call made while real "
                   "HttpLayers (HTTP/1 and HTTP/2) are driven into their error paths; every page on the wire is scanned.")
     level_note = ("trusted: Lean kernel; the differential tie (exhaustive short strings over the special characters + random "
                   "+ end-to-end recorded calls); CPython html.escape / textwrap.dedent / str.strip / str.encode are the modelled "
@@ -294,6 +325,11 @@ class Check(PropertyCheck):
             for sc in scs:
                 for mode in ("regular", "transparent"):
                     yield {"op": "e2e", "proto": proto, "sc": sc, "mode": mode, "mk_hex": hx(MARK.encode()), "cut": 0}
+        # the HTTP/1 send site: every ErrorCode x response started x client writable
+        for code in _events.ErrorCode:
+            for started in (False, True):
+                for cw in (True, False):
+                    yield {"op": "err", "code": code.value, "started": started, "canwrite": cw, "msg_hex": hx(MARK.encode())}
         # length ladder x markup density: raw and escaped length on either side of every plausible cap (256, 1024, 2K, 8K, 64K)
         for c in self.length_ladder(rng, tier):
             yield c
@@ -320,6 +356,10 @@ class Check(PropertyCheck):
                 yield {"op": "e2e", "proto": proto, "sc": sc, "mode": rng.pick(["regular", "regular", "transparent"]),
                        "mk_hex": hx(mk.encode()), "cut": rng.randint(0, 40) if rng.chance(0.4) else 0,
                        "novalidate": rng.chance(0.15)}
+                continue
+            if rng.chance(0.03):
+                yield {"op": "err", "code": rng.pick(list(_events.ErrorCode)).value, "started": rng.chance(0.3), "canwrite": rng.chance(0.85),
+                       "msg_hex": hx(self.dense(rng, rng.pick([0, 3, 20, 300, 1025]), rng.pick([0.1, 1.0])).encode())}
                 continue
             r = rng.random()
             n = rng.weighted([(70, rng.randint(1, 40)), (12, rng.randint(41, 300)), (10, rng.randint(300, 1100)),
@@ -377,6 +417,8 @@ class Check(PropertyCheck):
             page = _base.format_error(st, msg)
             resp = _http1.make_error_response(st, msg)
             return {"page_hex": hx(page), "resp_hex": hx(resp), "model_msg_hex": hx(msg.encode("utf8", "replace"))}
+        if case["op"] == "err":
+            return run_err(case)
         obs = run_e2e(case)
         self._stash = (self._key(case), obs)
         return obs
@@ -399,6 +441,16 @@ class Check(PropertyCheck):
                     fails.append("HTTP/1 error response does not declare Content-Type: text/html")
                 fails += scan_page(st, r["body"])
             return fails
+        if case["op"] == "err":
+            sent = unhx(obs["sent_hex"])
+            if not sent: return []
+            # whatever is written must be one complete framed HTML error response, properly escaped, and nothing after it
+            rs, left = parse_h1_stream(sent)
+            if len(rs) != 1 or left or obs["send_after_close"]:
+                return ["Http1Server.send(ResponseProtocolError) wrote something that is not one complete framed response"]
+            if dict(rs[0]["headers"]).get(b"content-type") != b"text/html":
+                fails.append("HTTP/1 error response does not declare Content-Type: text/html")
+            return fails + scan_page(rs[0]["status"], rs[0]["body"])
         if obs["crash"]:
             fails.append("layer raised %s while producing the error response" % obs["crash"][0])
         if obs["leftover_hex"] != "-":
@@ -418,6 +470,8 @@ class Check(PropertyCheck):
         if case["op"] == "fmt":
             m = hx(msg_of(case).encode("utf8", "replace"))
             return [f"fmt {case['status']} {m}", f"resp {case['status']} {m}"]
+        if case["op"] == "err":
+            return [f"err {int(case['canwrite'])} {int(case['started'])} {case['code']} " + hx(msg_of(case).encode("utf8", "replace"))]
         # e2e: the lines replay the format_error / make_error_response calls recorded while the layer ran
         # (impl() of the same case has just run in this process; otherwise run it)
         obs = self._stash[1] if getattr(self, "_stash", (None,))[0] == self._key(case) else self.impl(case)
@@ -442,6 +496,8 @@ class Check(PropertyCheck):
         return list(replies) + (["unmatched=0"] if case["op"] == "e2e" else [])
 
     def impl_view(self, case, obs):
+        if case["op"] == "err":
+            return [("nopage" if obs["sent_hex"] == "-" else obs["sent_hex"]) + (" close" if obs["closed"] else " open")]
         if case["op"] == "fmt":
             return [obs["page_hex"], obs["resp_hex"]]
         outs = [c[3] for c in obs["calls"]]
@@ -455,12 +511,16 @@ class Check(PropertyCheck):
         return v + [f"unmatched={unmatched}"]
 
     def classify(self, case, obs):
+        if case["op"] == "err":
+            return ("err", case["code"], case["started"], case["canwrite"], case["msg_hex"])
         if case["op"] == "fmt":
             return None if case["msg_hex"] == "-" else ("fmt", case["status"], case["msg_hex"])
         if not any(p["server"] != "-" for p in obs["pages"]): return None
         return ("e2e", case["proto"], case["sc"], case.get("mode"), case["mk_hex"], case.get("cut", 0), bool(case.get("novalidate")))
 
     def branches(self, case, obs):
+        if case["op"] == "err":
+            return ["err:" + ("page" if obs["sent_hex"] != "-" else "no-page") + (":close" if obs["closed"] else ":untouched")]
         if case["op"] == "fmt":
             m = unhx(case["msg_hex"])
             out = ["fmt"]
